@@ -469,7 +469,7 @@ def summarize {α : Type} (e : FEnv β) (g : Grid α β) (dist : List β) (ssDis
         let x := (conv.getD iso []).getD col e.zero
         acc + x * x) e.zero
     let angle := List.zipWith (fun dot s =>
-      let sim := if e.zero < s then dot / (e.sqrt s * ssDist) else e.zero
+      let sim := if e.zero < s then (let q := dot / (e.sqrt s * ssDist); if e.one < q then e.one else q) else e.zero
       e.one - e.two * e.acos sim / e.pi) dots ss
     (dots, angle)
   { dot := perFile.map (·.1), angle := perFile.map (·.2), refFile := g.refFile }
